@@ -27,6 +27,7 @@ THEOREMS = [
     "Optyx.Props.C08.lpStatus_table",
     "Optyx.Props.Glue.lpGlue_text",
     "Optyx.Props.Glue.lpRows_table",
+    "Optyx.Props.Glue.lpExtract_text",
 ]
 ASSUMPTIONS = [
     "scipy.optimize.linprog meets its documented contract on the data it is given (LinprogContract): the inside of HiGHS is trusted",
